@@ -305,6 +305,11 @@ func (so *stateObject) SetBalance(amount *big.Int) {
 		account: &so.address,
 		prev:    new(big.Int).Set(so.account.Balance()),
 	})
+	so.setBalance(amount)
+}
+
+// setBalance sets the balance without a journal entry (used when a journal entry is undone)
+func (so *stateObject) setBalance(amount *big.Int) {
 	so.account.SetBalance(amount)
 }
 
